@@ -210,7 +210,7 @@ def run(ctx, R):
     R.inst('C03.U', 'no-unsafe', ctx.fx.unsafe_blocks == 0, expected='0', found=str(ctx.fx.unsafe_blocks), nontrivial=False)
     # TLV iteration bound
     from rules import C11
-    C11.run(ctx, R)
+    C11.run(ctx, R, parts=('R',))
     if ctx.tier == 'thorough' and ctx.fx_rel is not None:
         import runner
         ctx2 = runner.Ctx(ctx.fx_rel, R, ctx.tier)
